@@ -474,6 +474,9 @@ pub fn placement_sweep(prop: &'static str, tier: Tier, idx: u32, nworkers: u32) 
                             let Some(bytes) = sweep_case(m_idx, cap, placement, pad, size, align_log) else {
                                 continue;
                             };
+                            if size == sizes[0] {
+                                sweep_note(&json!({"bytes_hex": hex(&bytes)}));
+                            }
                             let r = run_arena_case(&bytes, false, false);
                             out.evaluations += 1;
                             let m = [1usize, 2, 4, 8, 16][m_idx as usize];
